@@ -823,6 +823,13 @@ impl<'s> Runner<'s> {
                 // bytes stored at r10-1 and r10-512 read back (one variant across a local call, whose
                 // pushes must land below the 512-byte window)
                 let expected = ((prog.p0 as u64) << 8) | prog.tag as u64;
+                // Across a local call the interpreter moves r10 down and back up; whether it comes
+                // back right is C07's business (not applicable here), not "r10 at entry". The x86-64
+                // JIT never moves r10, so there the variant with a call only says whether the pushes
+                // of the call land outside the 512-byte window.
+                if prog.local_call && engine != Engine::Jit {
+                    return None;
+                }
                 if let Outcome::Ok(v) = obs.outcome {
                     if v & 0xff != prog.tag as u64 {
                         return None;
